@@ -87,10 +87,10 @@ Proof. inversion 1; subst. eexists; split; [reflexivity|assumption]. Qed.
 Lemma oeq_some_r o w' : oeq o (Some w') -> exists w, o = Some w /\ w == w'.
 Proof. inversion 1; subst. eexists; split; [reflexivity|assumption]. Qed.
 
-Fixpoint pget (p : pile) (b : ballot) : option Q :=
+Fixpoint pileget (p : pile) (b : ballot) : option Q :=
   match p with
   | [] => None
-  | (b', w) :: t => if ballot_eqb b b' then Some w else pget t b
+  | (b', w) :: t => if ballot_eqb b b' then Some w else pileget t b
   end.
 Definition padd (o : option Q) (w : Q) : Q := match o with Some w0 => Qred (w0 + w) | None => w end.
 
@@ -117,14 +117,14 @@ Section Univ.
   Lemma pwf_tail x p : pwf (x :: p) -> pwf p.
   Proof. intros [Hi Hn]. split; [intros y Hy; apply Hi; right; exact Hy|inversion Hn; assumption]. Qed.
 
-  Lemma pget_notin p b : In b U -> pwf p -> ~ In b (map fst p) -> pget p b = None.
+  Lemma pileget_notin p b : In b U -> pwf p -> ~ In b (map fst p) -> pileget p b = None.
   Proof.
     intros Hb. induction p as [|[b0 w0] t IH]; simpl; intros Hw Hn; [reflexivity|].
     destruct (ballot_eqb b b0) eqn:E.
     - apply beq_U in E; [subst; tauto|exact Hb|apply (proj1 Hw); left; reflexivity].
     - apply IH; [eapply pwf_tail, Hw|tauto].
   Qed.
-  Lemma pget_in p b w : In b U -> pwf p -> (pget p b = Some w <-> In (b, w) p).
+  Lemma pileget_in p b w : In b U -> pwf p -> (pileget p b = Some w <-> In (b, w) p).
   Proof.
     intros Hb. induction p as [|[b0 w0] t IH]; simpl; intros Hw; [split; [discriminate|tauto]|].
     pose proof (pwf_tail _ _ Hw) as Hw'. destruct Hw as [Hi Hn]. simpl in Hn. inversion Hn as [|? ? Hk _]; subst.
@@ -135,7 +135,7 @@ Section Univ.
     - rewrite (IH Hw'). split; [tauto|]. intros [H|H]; [|exact H]. injection H as -> ->.
       rewrite ballot_eqb_refl in E. discriminate.
   Qed.
-  Lemma pget_some_key p b w : pget p b = Some w -> exists b', In (b', w) p.
+  Lemma pileget_some_key p b w : pileget p b = Some w -> exists b', In (b', w) p.
   Proof.
     induction p as [|[b0 w0] t IH]; simpl; [discriminate|].
     destruct (ballot_eqb b b0); [intros [= ->]; exists b0; left; reflexivity|].
@@ -162,8 +162,8 @@ Section Univ.
       { apply existsb_exists. exists (b, w0). split; [exact Hx|apply ballot_eqb_refl]. }
       congruence.
   Qed.
-  Lemma pget_pile_add p b w b' : In b U -> In b' U -> pwf p ->
-    pget (pile_add p b w) b' = if ballot_eqb b' b then Some (padd (pget p b) w) else pget p b'.
+  Lemma pileget_pile_add p b w b' : In b U -> In b' U -> pwf p ->
+    pileget (pile_add p b w) b' = if ballot_eqb b' b then Some (padd (pileget p b) w) else pileget p b'.
   Proof.
     intros Hb Hb'. induction p as [|[b0 w0] t IH]; simpl; intros Hw; [reflexivity|].
     pose proof (pwf_tail _ _ Hw) as Hw'. assert (Hb0 : In b0 U) by (apply (proj1 Hw); left; reflexivity).
@@ -176,7 +176,7 @@ Section Univ.
   Qed.
 
   (* piles compared as dictionaries *)
-  Definition plook (p p' : pile) : Prop := forall b, In b U -> oeq (pget p b) (pget p' b).
+  Definition plook (p p' : pile) : Prop := forall b, In b U -> oeq (pileget p b) (pileget p' b).
   Definition wrel (x y : ballot * Q) : Prop := fst x = fst y /\ snd x == snd y.
 
   Lemma plook_refl p : plook p p.
@@ -189,31 +189,31 @@ Section Univ.
   Lemma plook_perm_mod p p' : pwf p -> pwf p' -> plook p p' -> perm_mod _ wrel p p'.
   Proof.
     intros Hw Hw' Hl.
-    exists (map (fun bw' : ballot * Q => (fst bw', match pget p (fst bw') with Some w => w | None => 0 end)) p'). split.
+    exists (map (fun bw' : ballot * Q => (fst bw', match pileget p (fst bw') with Some w => w | None => 0 end)) p'). split.
     - apply NoDup_Permutation.
       + eapply NoDup_map_inv. exact (proj2 Hw).
       + eapply NoDup_map_inv with (f := fst). rewrite map_map. simpl. exact (proj2 Hw').
       + intros [b w]. split; intros H.
         * assert (Hb : In b U) by (apply (proj1 Hw); apply in_map_iff; exists (b, w); auto).
-          pose proof (proj2 (pget_in p b w Hb Hw) H) as Hg. pose proof (Hl b Hb) as Ho. rewrite Hg in Ho.
-          apply oeq_some_l in Ho. destruct Ho as (w' & Hg' & _). apply (pget_in p' b w' Hb Hw') in Hg'.
+          pose proof (proj2 (pileget_in p b w Hb Hw) H) as Hg. pose proof (Hl b Hb) as Ho. rewrite Hg in Ho.
+          apply oeq_some_l in Ho. destruct Ho as (w' & Hg' & _). apply (pileget_in p' b w' Hb Hw') in Hg'.
           apply in_map_iff. exists (b, w'). simpl. rewrite Hg. split; [reflexivity|exact Hg'].
         * apply in_map_iff in H. destruct H as ([b' w'] & Heq & Hin). simpl in Heq. injection Heq as -> Hw0.
           assert (Hb : In b U) by (apply (proj1 Hw'); apply in_map_iff; exists (b, w'); auto).
-          pose proof (proj2 (pget_in p' b w' Hb Hw') Hin) as Hg'. pose proof (Hl b Hb) as Ho. rewrite Hg' in Ho.
-          apply oeq_some_r in Ho. destruct Ho as (w0 & Hg & _). rewrite Hg in Hw0. subst w. apply (pget_in p b w0 Hb Hw). exact Hg.
+          pose proof (proj2 (pileget_in p' b w' Hb Hw') Hin) as Hg'. pose proof (Hl b Hb) as Ho. rewrite Hg' in Ho.
+          apply oeq_some_r in Ho. destruct Ho as (w0 & Hg & _). rewrite Hg in Hw0. subst w. apply (pileget_in p b w0 Hb Hw). exact Hg.
     - clear Hw. induction p' as [|[b' w'] t IH]; simpl; [constructor|].
       assert (Hb : In b' U) by (apply (proj1 Hw'); left; reflexivity).
       constructor.
       + split; [reflexivity|]. simpl. pose proof (Hl b' Hb) as Ho.
-        assert (Hg' : pget ((b', w') :: t) b' = Some w') by (simpl; rewrite ballot_eqb_refl; reflexivity).
+        assert (Hg' : pileget ((b', w') :: t) b' = Some w') by (simpl; rewrite ballot_eqb_refl; reflexivity).
         rewrite Hg' in Ho. apply oeq_some_r in Ho. destruct Ho as (w0 & Hg & Hww). rewrite Hg. exact Hww.
       + (* the tail: lookups of t agree with those of p on t's keys *)
         clear IH.
-        assert (Ht : forall x, In x t -> wrel (fst x, match pget p (fst x) with Some w => w | None => 0 end) x).
+        assert (Ht : forall x, In x t -> wrel (fst x, match pileget p (fst x) with Some w => w | None => 0 end) x).
         { intros [b w] Hx. assert (Hbx : In b U) by (apply (proj1 Hw'); right; apply in_map_iff; exists (b, w); auto).
           split; [reflexivity|]. simpl. pose proof (Hl b Hbx) as Ho.
-          assert (Hg' : pget ((b', w') :: t) b = Some w) by (apply (pget_in _ b w Hbx Hw'); right; exact Hx).
+          assert (Hg' : pileget ((b', w') :: t) b = Some w) by (apply (pileget_in _ b w Hbx Hw'); right; exact Hx).
           rewrite Hg' in Ho. apply oeq_some_r in Ho. destruct Ho as (w0 & Hg & Hww). rewrite Hg. exact Hww. }
         clear -Ht. induction t as [|x t IHt]; simpl; constructor; [apply Ht; left; reflexivity|].
         apply IHt. intros y Hy. apply Ht. right. exact Hy.
@@ -222,21 +222,21 @@ Section Univ.
   Lemma perm_mod_plook p p' : pwf p -> pwf p' -> perm_mod _ wrel p p' -> plook p p'.
   Proof.
     intros Hw Hw' (m & Hp & Hm) b Hb.
-    destruct (pget p b) as [w|] eqn:E.
-    - apply (pget_in p b w Hb Hw) in E. apply (Permutation_in _ Hp) in E.
+    destruct (pileget p b) as [w|] eqn:E.
+    - apply (pileget_in p b w Hb Hw) in E. apply (Permutation_in _ Hp) in E.
       assert (Hx : exists w', In (b, w') p' /\ w == w').
       { clear -Hm E. induction Hm as [|x y m l Hxy _ IH]; [destruct E|]. destruct E as [->|E].
         - destruct y as [b' w']. destruct Hxy as [H1 H2]. simpl in *. subst b'. exists w'. split; [left; reflexivity|exact H2].
         - destruct (IH E) as (w' & H1 & H2). exists w'. split; [right; exact H1|exact H2]. }
-      destruct Hx as (w' & Hin & Hww). apply (pget_in p' b w' Hb Hw') in Hin. rewrite Hin. constructor. exact Hww.
-    - destruct (pget p' b) as [w'|] eqn:E'; [|constructor]. exfalso.
-      apply (pget_in p' b w' Hb Hw') in E'.
+      destruct Hx as (w' & Hin & Hww). apply (pileget_in p' b w' Hb Hw') in Hin. rewrite Hin. constructor. exact Hww.
+    - destruct (pileget p' b) as [w'|] eqn:E'; [|constructor]. exfalso.
+      apply (pileget_in p' b w' Hb Hw') in E'.
       assert (Hx : exists w, In (b, w) m).
       { clear -Hm E'. induction Hm as [|x y m l Hxy _ IH]; [destruct E'|]. destruct E' as [->|E'].
         - destruct x as [b0 w0]. destruct Hxy as [H1 _]. simpl in H1. subst b0. exists w0. left. reflexivity.
         - destruct (IH E') as (w & H). exists w. right. exact H. }
       destruct Hx as (w & Hin). apply (Permutation_in _ (Permutation_sym Hp)) in Hin.
-      apply (pget_in p b w Hb Hw) in Hin. congruence.
+      apply (pileget_in p b w Hb Hw) in Hin. congruence.
   Qed.
 
   Lemma wsum_perm_mod p p' : perm_mod _ wrel p p' -> wsum p == wsum p'.
@@ -338,7 +338,7 @@ Section Univ.
   Lemma plook_pile_add p p' b w w' : In b U -> pwf p -> pwf p' -> plook p p' -> w == w' ->
     plook (pile_add p b w) (pile_add p' b w').
   Proof.
-    intros Hb Hw Hw' Hl Hww b' Hb'. rewrite !pget_pile_add by assumption.
+    intros Hb Hw Hw' Hl Hww b' Hb'. rewrite !pileget_pile_add by assumption.
     destruct (ballot_eqb b' b); [|apply Hl, Hb']. constructor. apply padd_oeq; [apply Hl, Hb|exact Hww].
   Qed.
 
@@ -354,12 +354,12 @@ Section Univ.
     plook (pile_add (pile_add p b1 w1) b2 w2) (pile_add (pile_add p b2 w2) b1 w1).
   Proof.
     intros H1 H2 Hw b Hb.
-    rewrite !pget_pile_add by (try apply pile_add_wf; assumption).
+    rewrite !pileget_pile_add by (try apply pile_add_wf; assumption).
     destruct (ballot_eqb b1 b2) eqn:E12.
     - apply beq_U in E12; [|assumption|assumption]. subst b2. rewrite ballot_eqb_refl.
       destruct (ballot_eqb b b1); [|apply oeq_refl]. constructor. simpl.
-      pose proof (Qred_correct (padd (pget p b1) w1 + w2)) as E1. pose proof (Qred_correct (padd (pget p b1) w2 + w1)) as E2.
-      rewrite E1, E2. destruct (pget p b1) as [x|]; simpl.
+      pose proof (Qred_correct (padd (pileget p b1) w1 + w2)) as E1. pose proof (Qred_correct (padd (pileget p b1) w2 + w1)) as E2.
+      rewrite E1, E2. destruct (pileget p b1) as [x|]; simpl.
       + pose proof (Qred_correct (x + w1)) as E3. pose proof (Qred_correct (x + w2)) as E4. rewrite E3, E4. ring.
       + ring.
     - assert (E21 : ballot_eqb b2 b1 = false).
@@ -681,7 +681,7 @@ Section Univ.
   Qed.
 
   (* ------------------------------------------------------------ subtracting quotas (Gregory) *)
-  Lemma pget_map_scale (g : Q -> Q) p b : pget (map (fun bw : ballot * Q => (fst bw, g (snd bw))) p) b = option_map g (pget p b).
+  Lemma pileget_map_scale (g : Q -> Q) p b : pileget (map (fun bw : ballot * Q => (fst bw, g (snd bw))) p) b = option_map g (pileget p b).
   Proof. induction p as [|[b0 w0] p IH]; simpl; [reflexivity|]. destruct (ballot_eqb b b0); [reflexivity|exact IH]. Qed.
   Lemma pwf_map_scale (g : Q -> Q) p : pwf p -> pwf (map (fun bw : ballot * Q => (fst bw, g (snd bw))) p).
   Proof. unfold pwf. rewrite map_map. simpl. tauto. Qed.
@@ -697,7 +697,7 @@ Section Univ.
     - split; [apply pwf_nil|]. split; [apply pwf_nil|apply plook_refl].
     - set (f := (pile_sum p - amt) / pile_sum p).
       split; [apply (pwf_map_scale (fun w => Qred (w * f))), Hw|]. split; [apply (pwf_map_scale (fun w => Qred (w * f))), Hw'|].
-      intros b Hb. rewrite !(pget_map_scale (fun w => Qred (w * f))). specialize (Hl b Hb). destruct Hl as [|w w' Hww]; cbn [option_map]; constructor.
+      intros b Hb. rewrite !(pileget_map_scale (fun w => Qred (w * f))). specialize (Hl b Hb). destruct Hl as [|w w' Hww]; cbn [option_map]; constructor.
       pose proof (Qred_correct (w * f)) as E1. pose proof (Qred_correct (w' * f)) as E2. rewrite E1, E2, Hww. reflexivity.
   Qed.
 
@@ -1071,18 +1071,18 @@ Section Univ.
   Lemma bool_iff (x y : bool) : (x = true <-> y = true) -> x = y.
   Proof. destruct x, y; intuition congruence. Qed.
 
-  Definition PS (p q : pile) : Prop := forall b, In b U -> forall w, pget p b = Some w -> exists w', pget q b = Some w' /\ w == w'.
+  Definition PS (p q : pile) : Prop := forall b, In b U -> forall w, pileget p b = Some w -> exists w', pileget q b = Some w' /\ w == w'.
 
   Lemma psub_spec p q : pwf p -> pwf q -> (psub p q = true <-> PS p q).
   Proof.
     intros Hp Hq. unfold psub. rewrite forallb_forall. split.
-    - intros H b Hb w Hg. apply (pget_in p b w Hb Hp) in Hg. specialize (H _ Hg). apply existsb_exists in H.
+    - intros H b Hb w Hg. apply (pileget_in p b w Hb Hp) in Hg. specialize (H _ Hg). apply existsb_exists in H.
       destruct H as ([b' w'] & Hin & Hc). simpl in Hc. apply andb_true_iff in Hc. destruct Hc as [E1 E2].
       assert (Hb' : In b' U) by (apply (proj1 Hq); apply in_map_iff; exists (b', w'); auto).
-      apply beq_U in E1; [|assumption|assumption]. subst b'. exists w'. split; [apply (pget_in q b w' Hb Hq), Hin|apply Qeq_bool_iff, E2].
+      apply beq_U in E1; [|assumption|assumption]. subst b'. exists w'. split; [apply (pileget_in q b w' Hb Hq), Hin|apply Qeq_bool_iff, E2].
     - intros H [b w] Hin. assert (Hb : In b U) by (apply (proj1 Hp); apply in_map_iff; exists (b, w); auto).
-      destruct (H b Hb w (proj2 (pget_in p b w Hb Hp) Hin)) as (w' & Hg & Hww). apply existsb_exists. exists (b, w').
-      split; [apply (pget_in q b w' Hb Hq), Hg|]. simpl. rewrite ballot_eqb_refl. apply Qeq_bool_iff, Hww.
+      destruct (H b Hb w (proj2 (pileget_in p b w Hb Hp) Hin)) as (w' & Hg & Hww). apply existsb_exists. exists (b, w').
+      split; [apply (pileget_in q b w' Hb Hq), Hg|]. simpl. rewrite ballot_eqb_refl. apply Qeq_bool_iff, Hww.
   Qed.
 
   Lemma PS_resp p p1 q q1 : plook p p1 -> plook q q1 -> PS p q -> PS p1 q1.
